@@ -131,7 +131,7 @@ func runChild(cfg *supConfig, spec WorkerSpec, gomaxprocs int) childOutcome {
 type aggregate struct {
 	mu           sync.Mutex
 	Runs         int
-	VirtualNs    int64
+	VirtualS     float64
 	RealNs       int64
 	Stats        map[string]int
 	Probes       map[string]int
@@ -151,7 +151,7 @@ func (a *aggregate) merge(r *ChunkResult) {
 	a.mu.Lock()
 	defer a.mu.Unlock()
 	a.Runs += r.Runs
-	a.VirtualNs += r.VirtualNs
+	a.VirtualS += r.VirtualS
 	a.RealNs += r.RealNs
 	for k, v := range r.Stats {
 		a.Stats[k] += v
@@ -481,7 +481,7 @@ func supervisorMain() int {
 	}
 	writeEvidence(cfg, p, agg, wall, len(unknown), knownKeys)
 	fmt.Printf("runs=%d nontrivial=%d distinct_shapes=%d distinct_interleavings=%d simulated=%.0fs wall=%.1fs violations=%d known=%d\n",
-		agg.Runs, agg.NonTrivial, len(agg.Shapes), len(agg.Scheds), float64(agg.VirtualNs)/1e9, wall, len(unknown), len(knownKeys))
+		agg.Runs, agg.NonTrivial, len(agg.Shapes), len(agg.Scheds), agg.VirtualS, wall, len(unknown), len(knownKeys))
 	sort.Slice(unknown, func(i, j int) bool { return unknown[i].Index < unknown[j].Index })
 	for _, v := range unknown {
 		fmt.Printf("violation rule=%s index=%d facts=%v\n  %s\n", v.Rule, v.Index, v.Facts, v.Detail)
